@@ -36,13 +36,20 @@ def check(ctx, args):
     scheds = ["%d:150" % (ctx.seed * 11 + 3), "%d:400" % (ctx.seed * 11 + 4)] if quick else \
         ["%d:%d" % (ctx.seed * 11 + k, 100 * k) for k in (1, 2, 4, 6)]
     progs, stats = pipelib.gen_programs(ctx, nprog, ctx.seed + 1000)
+    # a dedicated batch of the family "merged output of a map call nested in a
+    # map call, both sized at run time" (one of the two producers is slow)
+    lib.GOENV["VH_GEN_MODE"] = "nested_dynamic_merge"
+    try:
+        progs_ndm, _ = pipelib.gen_programs(ctx, 6 if quick else 40, ctx.seed + 1500, sub="progs_ndm")
+    finally:
+        del lib.GOENV["VH_GEN_MODE"]
     ntr = nev = nstart_with_deps = 0
-    for si, sched in enumerate(scheds):
-        psid = "ps%d" % si
-        res = pipelib.run_programs(ctx, progs, psid, sched)
+    batches = [(progs, "ps%d" % si, sched) for si, sched in enumerate(scheds)] + [(progs_ndm, "pn0", scheds[0])]
+    for progs_b, psid, sched in batches:
+        res = pipelib.run_programs(ctx, progs_b, psid, sched)
         cases = []
         for name, info in sorted(res.items()):
-            d = os.path.join(progs, name)
+            d = os.path.join(progs_b, name)
             jobs, evs = schedcases.trace_of(d, [psid], pipelib.splits_of(d))
             if jobs:
                 cases.append((d, jobs, evs))
